@@ -24,6 +24,7 @@ EXPLANATION += (' Added after the audit wave: C17.7 t_opt is searched midway bet
 EXPLANATION += (' Second audit wave: C17.10 the instants handed to the crossing clustering carry a reduction of the time axis modulo the slot.')
 EXPLANATION += (' Third audit wave: C17.12 mu0 < threshold < mu1 structurally: every alternative of the stored threshold is an element of linspace(mu0, mu1, n) taken under 0 < index < n-1 (grids nested between interior points and grids cut with [1:-1] are followed), or the midpoint of the levels, or None. C17.6 now also accepts a record cut to whole slots and continued by its first slot when the slot count is odd (the test of the parity is read from the recorded branch condition).')
 EXPLANATION += (' Fourth audit wave: C17.13 the first split of the samples into an upper and a lower population (the boundary handed to shortest_int) comes from two clusters STARTED at the minimum and the maximum of the record (init= built from min and max), or is a mid-range value - never the global least-squares 2-means partition with random starts, which halves the noise cloud of one level when the other holds a handful of samples (3 ones in 4096 slots at 5 % noise: mu1 = 0.04 for a level at 1).')
+EXPLANATION += (' Wave 14: C17.14 a guard that ends GET_EYE early (raise / return) tests the waveform only with unit-free conditions: no np.allclose / np.isclose on the samples (rtol*|b| + atol has a unit), no comparison of samples with a non-zero numeric literal.')
 TRUSTED = ["sklearn KMeans / scipy gaussian_kde / resample are equivariant under a common affine map of homogeneous data", "numpy semantics of mean/std/unique/roll"]
 
 F0, F1 = Fraction(0), Fraction(1)
